@@ -22,8 +22,14 @@ mod proofs {
     }
 
     #[kani::proof]
+    #[kani::unwind(5)]
+    fn k_c09_chain3() {
+        let inp: [u8; 4] = kani::any();
+        assert!(logic::c09_chain3(&inp).is_ok());
+    }
+
+    #[kani::proof]
     #[kani::unwind(6)]
-    #[kani::solver(kissat)]
     fn k_c09_sort2() {
         let inp: [u8; 7] = kani::any();
         assert!(logic::c09_sort2(&inp).is_ok());
